@@ -27,6 +27,9 @@ const (
 	txReadBoth        // read-only: Get(20), Get(30)
 	txReadRemove      // read 30, then remove it
 	txAddSamePlus     // Add key 35 and two more keys (extra), restructuring the tree around 35
+	txCreateAndUpdate // create store s2 with one item, and read-modify-write key 20 of s1
+	txCreateOnly      // create store s2 (or open it if it exists already) and add ownKey to it
+	txCreateThenRollback // create store s2, add ownKey, then Rollback instead of committing
 	txKinds
 )
 
@@ -110,6 +113,20 @@ func (x *vfTxn) step(ctx context.Context, w *vfWorld) {
 			opOK = ok && err == nil
 		case txReadBoth:
 			x.r20, x.r30 = get(20), get(30)
+		case txCreateAndUpdate, txCreateOnly, txCreateThenRollback:
+			b2, err := NewBtree[int, string](ctx, vfStoreOptions("s2", 4, true), x.t, nil)
+			if err != nil {
+				// NewBtree rolls the transaction back itself when it fails
+				x.failed, x.seg = true, 3
+				return
+			}
+			ok, err := b2.Add(ctx, x.ownKey, "created"+x.tag)
+			opOK = ok && err == nil
+			if x.kind == txCreateAndUpdate {
+				x.r20 = get(20)
+				ok, err := b3.Update(ctx, 20, x.r20+x.tag)
+				opOK = opOK && ok && err == nil
+			}
 		}
 		if !opOK {
 			// the operation saw another transaction's committed change (e.g. duplicate key): abort
@@ -119,6 +136,11 @@ func (x *vfTxn) step(ctx context.Context, w *vfWorld) {
 		}
 		x.seg = 1
 	case 1:
+		if x.kind == txCreateThenRollback {
+			x.t.Rollback(ctx)
+			x.failed, x.seg = true, 3
+			return
+		}
 		if err := x.t.GetPhasedTransaction().Phase1Commit(ctx); err != nil {
 			x.failed, x.seg = true, 3
 			return
